@@ -215,10 +215,18 @@ class TreeSim:
         self.history = []
         self.done = None
 
+        class _Probe(Exception):
+            """Raised by a fallible child's forward on request; the parent catches it and calls the child again (fallback idiom)."""
+
         class Node(nn.Module):
             def forward(self, op, x):
+                mode = self.__dict__.pop("_vf_raise", None)
+                if mode == "start":
+                    raise _Probe()
                 for p in self._parameters.values():  # noqa: SLF001
                     x = op.Add(x, p)
+                if mode == "after_params":
+                    raise _Probe()
                 for child in self._modules.values():  # noqa: SLF001
                     x = call_child(op, child, x)
                 return x
@@ -232,6 +240,13 @@ class TreeSim:
                     for m in iterate(child):
                         x = call_child(op, m, x)
                 else:
+                    mode = getattr(child, "_vf_fallible", None)
+                    if mode:  # a forward that raises while tracing and is caught: the module scope must be left as it was found
+                        child.__dict__["_vf_raise"] = mode
+                        try:
+                            child(op, x)
+                        except _Probe:
+                            pass
                     x = child(op, x)
             return x
 
@@ -277,7 +292,7 @@ class TreeSim:
 
     def _new(self, kind, obj, name=None):
         self.nodes.append(dict(kind=kind, obj=obj, parent=None, key=None, kids=[], params=[], name=name, style="iter", twice=False, dead=False,
-                               rehomed=False))
+                               rehomed=False, fallible=None))
         return len(self.nodes) - 1
 
     def can_attach(self, parent, child):
@@ -366,6 +381,9 @@ class TreeSim:
         if o.get("twice"):
             self.nodes[c]["twice"] = True
             self.nodes[c]["obj"]._vf_twice = True  # noqa: SLF001
+        if o.get("fallible") and self.nodes[c]["kind"] == "M":
+            self.nodes[c]["fallible"] = o["fallible"]
+            self.nodes[c]["obj"].__dict__["_vf_fallible"] = o["fallible"]
         return True
 
     def _appendable(self, p, c):
@@ -503,13 +521,13 @@ class TreeSim:
     def text(self, i, ind=0):
         n = self.nodes[i]
         kind = {"M": "Module", "L": "ModuleList", "S": "Sequential"}[n["kind"]]
-        extra = (f" name={n['name']!r}" if n["name"] else "") + (f" iter={n['style']}" if n["kind"] == "L" else "") + (" x2" if n["twice"] else "")
+        extra = (f" name={n['name']!r}" if n["name"] else "") + (f" iter={n['style']}" if n["kind"] == "L" else "") + (" x2" if n["twice"] else "") + (f" fallible@{n['fallible']}" if n.get("fallible") else "")
         s = "  " * ind + f"({n['key']}) " * (n["key"] is not None) + kind + extra + "".join(f" P:{a}" for a, _ in n["params"]) + "\n"
         return s + "".join(self.text(k, ind + 1) for _, k in n["kids"])
 
     def shape_sig(self, i):
         n = self.nodes[i]
-        return [n["kind"], n["key"], bool(n["name"]), n["style"] if n["kind"] == "L" else "", n["twice"], [a for a, _ in n["params"]],
+        return [n["kind"], n["key"], bool(n["name"]), n["style"] if n["kind"] == "L" else "", n["twice"], n.get("fallible"), [a for a, _ in n["params"]],
                 [self.shape_sig(k) for _, k in n["kids"]]]
 
 
@@ -623,6 +641,8 @@ def tree_record(col, sim, verdicts, info):
     classes += [f"tree:iter:{s}" for s in sorted(styles)]
     if any(sim.nodes[i]["twice"] for i in _subtree(sim, r)):
         classes.append("tree:called-twice")
+    if any(sim.nodes[i].get("fallible") for i in _subtree(sim, r)):
+        classes.append("tree:fallible-child")
     if info.get("ran"):
         classes.append("tree:executed:" + info.get("verdict", "?"))
     if _nested_containers(sim, r):
@@ -697,9 +717,11 @@ def make_tree_machine(col):
             self.sim.apply({"op": "param", "mod": self._pick(self.sim.alive("M"), m), "attr": attr, "named": named, "data": data})
 
         @precondition(lambda self: self.sim.done is None and self.sim.alive("M") and self.sim.detached())
-        @rule(p=ints, c=ints, attr=st.sampled_from(ATTRS), twice=st.sampled_from([False] * 7 + [True]))
-        def attach(self, p, c, attr, twice):
-            self.sim.apply({"op": "attach", "parent": self._pick(self.sim.alive("M"), p), "child": self._pick(self.sim.detached(), c), "attr": attr, "twice": twice})
+        @rule(p=ints, c=ints, attr=st.sampled_from(ATTRS), twice=st.sampled_from([False] * 7 + [True]),
+              fallible=st.sampled_from([None] * 6 + ["start", "after_params"]))
+        def attach(self, p, c, attr, twice, fallible):
+            self.sim.apply({"op": "attach", "parent": self._pick(self.sim.alive("M"), p), "child": self._pick(self.sim.detached(), c), "attr": attr, "twice": twice,
+                            "fallible": fallible})
 
         @precondition(lambda self: self.sim.done is None and self.sim.alive("LS") and self.sim.detached())
         @rule(p=ints, c=ints)
